@@ -132,6 +132,7 @@ def build(P):
             P.verify(f"{OR}:get_object_results", name=f"get_object_results[3-D, {mode}, {fam}]", contract=c, extra_contracts=extra)
     # the cells the dominance invariants read: _get_score_table re-verified here (a change to the compatibility mask alone breaks C02, not C01's counting)
     C01.score_table_tasks(P)
+    C01.matching_module_tasks(P)
     P.trust("np.nanargmin / np.nanargmax return a position holding an optimal non-NaN entry (assumed; ties unspecified)")
     P.assume("the score table encodes (valid, compatible, score) per pair as _get_score_table's contract states (verified in this check too)")
     P.assume("objects left in the working lists at return are exactly the inputs that occur in no pair (C01's counting and distinctness invariants)")
